@@ -176,3 +176,26 @@ Definition node_fits (gi : seginfo) (s : seg) : bool :=
                  end) (combine (seq 0 (length (els s))) (els s))
   | _, _ => false
   end.
+
+(* ---------------- per-map premise of the refinement theorem ---------------- *)
+(* all loop paths of a loaded map (a segment's enclosing-loop path is one of them) *)
+Fixpoint loop_paths (fuel : nat) (ns : list node) (pre : list str) : list (list str) :=
+  match fuel with
+  | 0 => []
+  | S f => flat_map (fun n => match n with
+                              | NLoop (Some id) _ _ _ _ _ pm => let p := pre ++ [id] in p :: loop_paths f (pm_nodes pm) p
+                              | _ => []
+                              end) ns
+  end.
+
+(* the text-based prefix test of x12xml_simple agrees with the list-based rule for EVERY ordered pair of loop
+   paths of the map (and for the empty path before the first segment) *)
+Definition map_paths_safe (m : xmap) : bool :=
+  let ps := [] :: loop_paths 40 (root_nodes m) [] in
+  forallb (fun a => forallb (prefix_safe a) ps) ps.
+
+Definition map_c08_ok (rx : regex_table) (dataele_xml codes_xml root : xml) : bool :=
+  match load_map rx dataele_xml codes_xml None (l "B") root with
+  | Ok m => map_paths_safe m
+  | Raise _ => false
+  end.
